@@ -725,3 +725,18 @@ Lemma bare_key_refuted :
 Proof.
   split; [repeat constructor|]. split; [vm_compute; discriminate|vm_compute; reflexivity].
 Qed.
+
+(* ---------- the keys of the concrete scenario instance (Model/Scenario.v) ---------- *)
+(* The segments used by the preprocessor paths of the scenario model are the keys the path model
+   computes for the documented spellings source.<src>[next].<field> and source.<src>.<lst>[next]
+   (iterator number [own] as the prefix). *)
+Lemma scenario_keys own src field lst :
+  seg_next own src = nkey [own] [CPlain ex_source; CNext src; CPlain field] /\
+  seg_vnext own src lst = nkey [own] [CPlain ex_source; CPlain src; CNext lst].
+Proof.
+  split.
+  - unfold seg_next, nkey, kext_go, is_cnext, print_cseg, ex_source, s_next, c_dot, c_lb, c_rb.
+    cbn [app]. repeat (rewrite <- app_assoc; cbn [app]). reflexivity.
+  - unfold seg_vnext, nkey, kext_go, is_cnext, print_cseg, ex_source, s_next, c_dot, c_lb, c_rb.
+    cbn [app]. repeat (rewrite <- app_assoc; cbn [app]). reflexivity.
+Qed.
